@@ -31,6 +31,7 @@ type c04 struct {
 	maxLive  int
 	probeSeq uint32
 	pre      seqx.Pre
+	nEstBy   [NPeers]int
 }
 
 func c04Spec(tier, scenario string) seqx.Spec {
@@ -142,7 +143,9 @@ func (c *c04) Apply(e seqx.Event) seqx.StepResult {
 		p := int(e.A[0])
 		c.nEst++
 		c.EstUP = append(c.EstUP, 0)
-		cp := uint64(0x1000 + c.nEst)
+		// CP SEIDs are chosen by the peers: the k-th session of A and the k-th session of B carry the same one
+		c.nEstBy[p]++
+		cp := uint64(0x1000 + c.nEstBy[p])
 		rowsBefore := c.W.D.Rows()
 		o = c.W.Send(p, smf.Est(c.NextSeq(p), c.W.PeerIP(p), true, cp, c.W.PeerIP(p),
 			smf.RuleOp{Verb: 'C', Kind: 'F', ID: 1}, smf.RuleOp{Verb: 'C', Kind: 'U', ID: 1, MInfo: -1},
